@@ -1,7 +1,19 @@
 // stringify's operator arms: every recursive call prints the child with the SAME context, displacement, export flag,
 // locale and language the arm itself received, so a displacement reaches every reference below an operator.  (C12, C13, C15)
 use vstd::prelude::*;
+// what the arms print around their operands is not part of this contract (it is unit parens'): every format string they use is read as a shim
+macro_rules! format {
+    ("({})", $e:expr $(,)?) => { shim_fmt1($e) };
+    ("{}:{}", $a:expr, $b:expr $(,)?) => { shim_fmt2($a, $b) };
+    ("{}&{}", $a:expr, $b:expr $(,)?) => { shim_fmt2($a, $b) };
+    ("{}{}{}", $a:expr, $k:expr, $b:expr $(,)?) => { shim_fmt2($a, $b) };
+    ("-({})", $e:expr $(,)?) => { shim_fmt1($e) };
+    ("-{}", $e:expr $(,)?) => { shim_fmt1($e) };
+    ("{}%", $e:expr $(,)?) => { shim_fmt1($e) };
+}
 verus! {
+#[verifier::external_body] pub fn shim_fmt1(a: String) -> String { unimplemented!() }
+#[verifier::external_body] pub fn shim_fmt2(a: String, b: String) -> String { unimplemented!() }
 #[verifier::external_body] pub struct Function { _o: u8 }
 #[verifier::external_body] pub struct NamedVariable { _o: u8 }
 #[verifier::external_body] pub struct ArrayNode { _o: u8 }
@@ -36,6 +48,14 @@ pub fn stringify(node: &Node, context: Option<&CellReferenceRC>, displace_data: 
     requires env_ok(context, displace_data, export_to_excel, locale, language)
 { unimplemented!() }
 
+// the operand printer the arms share: it prints its operand with the environment it was given (and wraps it in parentheses or not: unit parens)
+//@fn base/src/expressions/parser/stringify.rs precedence
+//@end
+//@fn base/src/expressions/parser/stringify.rs stringify_operand
+//@spec
+    requires env_ok(context, displace_data, export_to_excel, locale, language)
+//@rewrite `format!("({s})")` => `shim_fmt1(s)`
+//@end
 pub fn arm_op_range(left: &Box<Node>, right: &Box<Node>, context: Option<&CellReferenceRC>, displace_data: &DisplaceData, export_to_excel: bool, locale: &Locale, language: &Language) -> String
     requires env_ok(context, displace_data, export_to_excel, locale, language)
 {
@@ -57,16 +77,17 @@ pub fn arm_compare(kind: &OpCompare, left: &Box<Node>, right: &Box<Node>, contex
 pub fn arm_op_sum(kind: &OpSum, left: &Box<Node>, right: &Box<Node>, context: Option<&CellReferenceRC>, displace_data: &DisplaceData, export_to_excel: bool, locale: &Locale, language: &Language) -> String
     requires env_ok(context, displace_data, export_to_excel, locale, language)
 //@arm base/src/expressions/parser/stringify.rs stringify `OpSumKind { kind, left, right } =>`
-//@rewrite* ` | matches!(**right, CompareKind { .. })` => ` || matches!(**right, CompareKind { .. })`
-//@rewrite `format!("{left_str}{kind}{right_str}")` => `format!("{left_str}{right_str}")`
 //@end
 pub fn arm_op_product(kind: &OpProduct, left: &Box<Node>, right: &Box<Node>, context: Option<&CellReferenceRC>, displace_data: &DisplaceData, export_to_excel: bool, locale: &Locale, language: &Language) -> String
     requires env_ok(context, displace_data, export_to_excel, locale, language)
+{
 //@arm base/src/expressions/parser/stringify.rs stringify `OpProductKind { kind, left, right } =>`
 //@end
+}
 pub fn arm_op_power(left: &Box<Node>, right: &Box<Node>, context: Option<&CellReferenceRC>, displace_data: &DisplaceData, export_to_excel: bool, locale: &Locale, language: &Language) -> String
     requires env_ok(context, displace_data, export_to_excel, locale, language)
 //@arm base/src/expressions/parser/stringify.rs stringify `OpPowerKind { left, right } =>`
+//@rewrite `format!("{x}^{y}")` => `shim_fmt2(x, y)`
 //@end
 pub fn arm_unary(kind: &OpUnary, right: &Box<Node>, context: Option<&CellReferenceRC>, displace_data: &DisplaceData, export_to_excel: bool, locale: &Locale, language: &Language) -> String
     requires env_ok(context, displace_data, export_to_excel, locale, language)
